@@ -300,6 +300,15 @@ func c14Run(c *core.Ctx) {
 					run(m)
 				}
 			}
+			// a valid prefix of every length followed by a constant-filled tail of every length up to 24
+			for k := 0; k <= len(seed) && k <= 20; k++ {
+				for _, fill := range []byte{0x00, 0xFF, 0x0F, 0xF0, 0x99} {
+					for nn := 1; nn <= 24; nn++ {
+						m := append(append([]byte{}, seed[:k]...), bytes.Repeat([]byte{fill}, nn)...)
+						run(m)
+					}
+				}
+			}
 			lim := len(seed)
 			if !thorough && lim > 12 {
 				lim = 12
@@ -441,7 +450,7 @@ func init() {
 			if tier == "thorough" {
 				l3 = "every byte string of length 3 (all 2^24)"
 			}
-			return "per helper (35 byte-input helpers incl. the nasType.MobileIdentity5GS / DNN text getters, 4 text-input variants): every byte string of length 0..2, " + l3 + ", every string of length 4..6 (7 thorough) over an 8-value branch-constant alphabet, lengths up to 12 (24) as identity-type octet x fill x single deviation, and the <=2-mutation neighbourhood (every truncation, every single-octet replacement by all 256 values, deletions, insertions, pairs of replacements) of 12 valid encodings; text variants over all strings of length <=3 over {0,9,a,f,g,-,é} and <=2 mutations of valid texts. Oracle: returns without panic (recover), terminates and stays within the heap limit (worker watchdog). Element-typed helpers are judged on lengths the decoders can deliver; shorter inputs are counted separately."
+			return "per helper (35 byte-input helpers incl. the nasType.MobileIdentity5GS / DNN text getters, 4 text-input variants): every byte string of length 0..2, " + l3 + ", every string of length 4..6 (7 thorough) over an 8-value branch-constant alphabet, lengths up to 12 (24) as identity-type octet x fill x single deviation, and the <=2-mutation neighbourhood (every truncation, every single-octet replacement by all 256 values, deletions, insertions, pairs of replacements, every valid prefix followed by a constant-filled tail of 1..24 octets) of 12 valid encodings; text variants over all strings of length <=3 over {0,9,a,f,g,-,é} and <=2 mutations of valid texts. Oracle: returns without panic (recover), terminates and stays within the heap limit (worker watchdog). Element-typed helpers are judged on lengths the decoders can deliver; shorter inputs are counted separately."
 		},
 		Assumptions: []string{
 			"element-typed helpers (MobileIdentity5GS getters: >= 4 octets, DNN: >= 1, fixed-size time elements) are judged on decoder-deliverable lengths only",
